@@ -741,7 +741,7 @@ func TestReplay_NilOutputOfMultiReturnConstructor(t *testing.T) {
 }
 
 type rbGreeter interface{ Hello() string }
-type rbValImpl struct{ n int } // only *rbValImpl implements rbGreeter
+type rbValImpl struct{ n int }   // only *rbValImpl implements rbGreeter
 func (*rbValImpl) Hello() string { return "hi" }
 
 type rbGreeterIn struct {
@@ -838,5 +838,43 @@ func TestReplay_VariadicConstructor(t *testing.T) {
 	defer p.Close()
 	if svc, err := Resolve[*rbVarSvc](p); err != nil || len(svc.opts) != 2 {
 		t.Errorf("REPLAY-CONFIRMED ConstructorInvoker.invokeWithRecovery#assert[variadic_functions_are_called_with_their_slice]: wrong wiring: %v %v", svc, err)
+	}
+}
+
+type rbNFA struct{ id int }
+type rbNFB struct{}
+type rbNFOut struct {
+	Out
+	A *rbNFA
+	B *rbNFB // left nil by the constructor
+}
+
+// scope.createInstance#assert[requested_field_missing_stores_nothing]: a scoped result object that leaves one field nil. The nil field is never
+// cached, so resolving its type ran the constructor again, stored the new sibling over the one the scope already held, and only then
+// failed with 'result object produced no services': one scope handed out two instances of the sibling.
+func TestReplay_ScopedResultObjectWithNilField(t *testing.T) {
+	calls := 0
+	c := NewCollection()
+	c.AddScoped(func() rbNFOut { calls++; return rbNFOut{A: &rbNFA{id: calls}} })
+	p, err := c.Build()
+	if err != nil {
+		t.Fatal(err)
+	}
+	defer p.Close()
+	sc, _ := p.CreateScope(context.Background())
+	defer sc.Close()
+	a1, err := Resolve[*rbNFA](sc)
+	if err != nil {
+		t.Fatal(err)
+	}
+	if _, err := Resolve[*rbNFB](sc); err == nil {
+		t.Errorf("resolving the nil field succeeded")
+	}
+	a2, err := Resolve[*rbNFA](sc)
+	if err != nil {
+		t.Fatal(err)
+	}
+	if a1 != a2 {
+		t.Errorf("REPLAY-CONFIRMED scope.createInstance#assert[requested_field_missing_stores_nothing]: one scope returned two instances of *rbNFA (ids %d and %d); the constructor ran %d times", a1.id, a2.id, calls)
 	}
 }
